@@ -65,7 +65,7 @@ pub fn totality(sh: &mut Shard, family: &str, text: &str, budget: u64) {
         ImplEnd::Panic(p) => Some(format!("panic: {p}")),
     };
     let bad = bad.or_else(|| {
-        if r.heap.iter().any(|h| h.starts_with("use-after-free") || h.starts_with("double-free")) {
+        if r.heap.iter().any(|h| h.starts_with("use-after-free") || h.starts_with("double-free") || h.starts_with("dead-result")) {
             Some(format!("heap discipline broken during the run: {:?}", r.heap))
         } else {
             None
@@ -152,45 +152,56 @@ pub fn corpus_texts() -> Vec<String> {
     v
 }
 
-fn edits(sh: &mut Shard) {
+/// Every char-boundary truncation and every single-token edit of every corpus program.
+pub fn for_each_edit(f: &mut dyn FnMut(&str, &str) -> bool) {
     for prog in corpus_texts() {
         let toks = verif::tokens(&prog);
-        // truncations at every char boundary
         for (i, _) in prog.char_indices().skip(1) {
-            case(sh, "truncation", &prog[..i], 200_000);
+            if !f("truncation", &prog[..i]) {
+                return;
+            }
         }
         if toks.len() > 400 {
             continue;
         }
-        let piece = |k: usize| -> &str { &prog[toks[k].1..toks[k].2] };
+        // a token's text is the end of its span minus the skipped separators in front of it
+        let piece = |k: usize| -> &str { prog[toks[k].1..toks[k].2].trim_start_matches(|c: char| c.is_whitespace() || c == '\u{200E}' || c == '\u{200F}') };
+        let all: Vec<&str> = (0..toks.len()).map(piece).filter(|p| !p.starts_with("//")).collect();
         let rebuild = |parts: &[&str]| -> String { parts.join(" ") };
-        let all: Vec<&str> = (0..toks.len()).map(piece).collect();
         for k in 0..all.len() {
-            // delete
             let mut p = all.clone();
             p.remove(k);
-            case(sh, "edit-delete", &rebuild(&p), 200_000);
-            // duplicate
+            if !f("edit-delete", &rebuild(&p)) {
+                return;
+            }
             let mut p = all.clone();
             p.insert(k, all[k]);
-            case(sh, "edit-duplicate", &rebuild(&p), 200_000);
-            // swap with next
+            if !f("edit-duplicate", &rebuild(&p)) {
+                return;
+            }
             if k + 1 < all.len() {
                 let mut p = all.clone();
                 p.swap(k, k + 1);
-                case(sh, "edit-swap", &rebuild(&p), 200_000);
+                if !f("edit-swap", &rebuild(&p)) {
+                    return;
+                }
             }
-            // replace by every vocabulary token
             for v in VOCAB {
                 let mut p = all.clone();
                 p[k] = v;
-                case(sh, "edit-replace", &rebuild(&p), 200_000);
-            }
-            if !sh.running() {
-                return;
+                if !f("edit-replace", &rebuild(&p)) {
+                    return;
+                }
             }
         }
     }
+}
+
+fn edits(sh: &mut Shard) {
+    for_each_edit(&mut |family, text| {
+        case(sh, family, text, 200_000);
+        sh.running()
+    });
 }
 
 fn directed(sh: &mut Shard, tier: Tier) {
